@@ -372,6 +372,16 @@ def run(ctx):
              "concatenation) of widths 1-4, every int index and slice with bounds in [-w-1, w] and steps None, +-1, 2; "
              "plus histories: indexed, the referent resized, the same parent object indexed again (seeded)",
         bound="widths<=4 exhaustive; resize histories sampled", key_of=repr)
+    # slices of port REFERENCES, resolved during elaboration once the reference is (update_ref_deps re-parents them):
+    # the exported bits against the reference meaning of the design as written
+    from props import c01 as _c01
+    ctx.run_bounded(
+        "portref-slice-resolution", _c01.portref_slice_designs(),
+        lambda c: (lambda r: None if r is None else ("hdl21.elab.helpers.resolve_ref_types:update_ref_deps/" + r[0], r[1], r[2]))(_c01.check_design(c)),
+        rule="a 4-bit child port tied to 7 kinds of referent (whole signal, low / high / middle / reversed piece of a bus, "
+             "concatenation, nothing) and a device on `child.p[idx]` for every int index and every slice with steps +-1, +-2: "
+             "exported bits == the bits the design denotes",
+        bound="7 referents x ~115 indices", key_of=lambda c: c[0])
     cases = itertools.chain(small_nested(), nested_cases(rnd, 20000 if thorough else 3000))
     ctx.run_bounded(
         "nested-resolution", cases,
@@ -384,6 +394,9 @@ def run(ctx):
 
 def replay(payload):
     inp = (payload.get("replay") or {}).get("input") or payload.get("input") or {}
+    if "design" in inp:
+        from props import c01 as _c01
+        return _c01.replay(payload)
     if "ref_parent" in inp:
         r = check_ref_parent(eval(inp["ref_parent"]))
         print("replay:", r)
